@@ -1269,9 +1269,16 @@ func (b *broker) subEventHistory(msg *wamp.Invocation) wamp.Message {
 						}
 					}
 
-					eventTopic, ok := entry.event.Details["topic"]
-					if len(topicUri) > 0 && (!ok || eventTopic != topicUri) {
-						continue
+					if len(topicUri) > 0 {
+						// The events of an exact-match subscription carry no
+						// topic detail: their topic is the subscription's.
+						eventTopic, ok := entry.event.Details["topic"]
+						if !ok {
+							eventTopic = subscription.topic
+						}
+						if eventTopic != topicUri {
+							continue
+						}
 					}
 
 					filteredEvents = append(filteredEvents, entry.event)
